@@ -63,7 +63,7 @@ func genNames(maxSeg int, withLeads bool, segs []string) []string {
 
 // cleanRelSlash is the reference for "a clean relative slash path": non-empty
 // components separated by single '/', none of them "." or "..", no backslash,
-// no leading '/', no drive-absolute prefix.
+// no leading '/'.
 func cleanRelSlash(n string) bool {
 	if n == "" || strings.ContainsRune(n, '\\') {
 		return false
@@ -73,10 +73,14 @@ func cleanRelSlash(n string) bool {
 			return false
 		}
 	}
-	if len(n) >= 3 && n[1] == ':' && n[2] == '/' && (n[0]|0x20 >= 'a' && n[0]|0x20 <= 'z') {
-		return false
-	}
 	return true
+}
+
+// driveAbs: "c:/..." - relative on Linux (so not judged by the property as
+// stated), absolute on Windows; Helm's archive loader rejects such names at
+// the top level. Recorded as an observation only.
+func driveAbs(n string) bool {
+	return len(n) >= 3 && n[1] == ':' && n[2] == '/' && (n[0]|0x20 >= 'a' && n[0]|0x20 <= 'z')
 }
 
 // nameShape reduces a name to the features that matter for finding keys.
